@@ -12,6 +12,13 @@ package main
 // handler ran, and for a discharge which pool token it verifies for (t<i>) with which of the
 // application's caveats (c<k>) — then (sched only) the store-operation log, then the live keys.
 // Evictions of the LRU are observed after every Insert and fed to the model as (evict …) items.
+//
+// Two tp.TP values (service 0 and 1: own Key and Location) share the ONE wrapped store; every
+// action names the service it is addressed to.  A quarter of the polls / user visits / decisions on
+// a flow go to the service that did NOT start it (pending and decided flows alike), init also gets
+// valid tickets of the other service, and in tp.run episodes a third of the requests are realised
+// on the other tp.TP with its Key replaced for the call ("key rotated between approval and
+// collection").  Pool token ids are 2*i+svc: the parity is the model's `sealer`.
 
 import (
 	"bytes"
@@ -36,7 +43,8 @@ import (
 func init() { families["tp"] = famTP }
 
 const (
-	tpLoc     = "https://tp.example"
+	tpLoc     = "https://tp.example"   // service 0
+	tpLocB    = "https://tp-b.example" // service 1: own key, own location, SAME store
 	tpFirst   = "https://first-party.example"
 	tpCavEnd  = int64(1) << 40
 	tpUserPfx = "/user/"
@@ -45,7 +53,8 @@ const (
 type tpThreadKey struct{}
 
 type tpTok struct {
-	id     int
+	id     int // 2*i + svc: the model's ticket atom; its parity names the service whose key seals it
+	svc    int
 	m      *macaroon.Macaroon
 	key    macaroon.SigningKey
 	ticket []byte
@@ -53,12 +62,15 @@ type tpTok struct {
 
 type tpFlow struct {
 	n                  int // 1-based order of Insert
+	svc                int // the service whose init inserted it
 	us, ps             string
 	pollLive, userLive bool
 }
 
 type tpAct struct {
 	kind     string // init poll uservisit approve abort
+	svc      int    // the tp.TP the request is addressed to
+	viaSwap  bool   // realised on the OTHER instance with its Key replaced by this service's key for the call
 	good     bool
 	tid      int    // pool token id (good) or bad-ticket kind
 	raw      []byte // ticket bytes
@@ -87,10 +99,12 @@ type tpThread struct {
 	note       string
 }
 
+var tpLocs = [2]string{tpLoc, tpLocB}
+
 type tpWorld struct {
 	r       *Rng
 	o       *Out
-	svc     *tp.TP
+	svcs    [2]*tp.TP
 	ms      *tp.MemoryStore
 	toks    []*tpTok
 	foreign []byte // ticket sealed under another service's key
@@ -101,8 +115,9 @@ type tpWorld struct {
 	oplog   []string
 	inits   int
 	conc    bool
-	planned int          // inits that will insert
-	initH   http.Handler // the init middleware is built once per service and reused, as on a real mux
+	planned int             // inits that will insert
+	lastSvc int             // service of the flow genSecret picked last
+	initH   [2]http.Handler // the init middleware is built once per service and reused, as on a real mux
 }
 
 // ---- wrapping store -------------------------------------------------------------------------
@@ -134,6 +149,9 @@ func (s *tpWrapStore) Insert(ctx context.Context, sd *tp.StoreData) (string, str
 	us, ps, err := s.inner.Insert(ctx, sd)
 	if err == nil {
 		fl := &tpFlow{n: len(s.w.flows) + 1, us: us, ps: ps, pollLive: true, userLive: true}
+		if th0, _ := ctx.Value(tpThreadKey{}).(*tpThread); th0 != nil {
+			fl.svc = th0.act.svc
+		}
 		s.w.flows = append(s.w.flows, fl)
 		s.log(th, "ins:%s", s.w.sref(ps))
 	}
@@ -221,8 +239,12 @@ func newTPWorld(r *Rng, o *Out, size, ntoks int) *tpWorld {
 		panic(err)
 	}
 	w.ms = ms
-	w.svc = &tp.TP{Location: tpLoc, Key: macaroon.NewEncryptionKey(), Store: &tpWrapStore{w: w, inner: ms}}
-	mint := func(id int, ka macaroon.EncryptionKey) *tpTok {
+	ws := &tpWrapStore{w: w, inner: ms}
+	for v := range w.svcs {
+		w.svcs[v] = &tp.TP{Location: tpLocs[v], Key: macaroon.NewEncryptionKey(), Store: ws}
+	}
+	mint := func(id, v int, ka macaroon.EncryptionKey) *tpTok {
+		tpLoc := tpLocs[v]
 		k := macaroon.NewSigningKey()
 		m, err := macaroon.New([]byte{byte(id), 7}, tpFirst, k)
 		if err != nil {
@@ -250,12 +272,14 @@ func newTPWorld(r *Rng, o *Out, size, ntoks int) *tpWorld {
 		if _, err := dm.Verify(k, nil, nil); err == nil {
 			panic("pool token verifies without a discharge")
 		}
-		return &tpTok{id: id, m: dm, key: k, ticket: tks[tpLoc]}
+		return &tpTok{id: id, svc: v, m: dm, key: k, ticket: tks[tpLoc]}
 	}
 	for i := 1; i <= ntoks; i++ {
-		w.toks = append(w.toks, mint(i, w.svc.Key))
+		for v := range w.svcs {
+			w.toks = append(w.toks, mint(2*i+v, v, w.svcs[v].Key))
+		}
 	}
-	w.foreign = mint(99, macaroon.NewEncryptionKey()).ticket
+	w.foreign = mint(99, 0, macaroon.NewEncryptionKey()).ticket
 	return w
 }
 
@@ -327,18 +351,19 @@ func (w *tpWorld) live() string {
 	return s
 }
 
-func (w *tpWorld) mux(rw http.ResponseWriter, r *http.Request) {
+// the handlers of service v (inst is its tp.TP, or the other one with v's key swapped in)
+func (w *tpWorld) mux(v int, inst *tp.TP, rw http.ResponseWriter, r *http.Request) {
 	path := r.URL.EscapedPath()
 	switch {
 	case path == tp.InitPath:
-		if w.initH == nil {
-			w.initH = w.svc.InitRequestMiddleware(http.HandlerFunc(w.handleInit))
+		if w.initH[v] == nil {
+			w.initH[v] = w.svcs[v].InitRequestMiddleware(http.HandlerFunc(w.handleInit))
 		}
-		w.initH.ServeHTTP(rw, r)
+		w.initH[v].ServeHTTP(rw, r)
 	case strings.HasPrefix(path, tp.PollPathPrefix):
-		w.svc.HandlePollRequest(rw, r)
+		inst.HandlePollRequest(rw, r)
 	case strings.HasPrefix(path, tpUserPfx):
-		w.svc.UserRequestMiddleware(http.HandlerFunc(w.handleUser)).ServeHTTP(rw, r)
+		inst.UserRequestMiddleware(http.HandlerFunc(w.handleUser)).ServeHTTP(rw, r)
 	default:
 		panic("unrouted " + path)
 	}
@@ -359,15 +384,16 @@ func (w *tpWorld) handleInit(rw http.ResponseWriter, r *http.Request) {
 		th.note += "!nofd"
 	}
 	a := th.act
+	svc := w.svcs[a.svc]
 	switch a.mode {
 	case "immediate":
-		w.svc.RespondDischarge(rw, r, tpCavs(a.cs)...)
+		svc.RespondDischarge(rw, r, tpCavs(a.cs)...)
 	case "poll":
-		th.retSecret = w.svc.RespondPoll(rw, r)
+		th.retSecret = svc.RespondPoll(rw, r)
 	case "user":
-		th.retSecret = w.svc.RespondUserInteractive(rw, r)
+		th.retSecret = svc.RespondUserInteractive(rw, r)
 	case "refuse":
-		w.svc.RespondError(rw, r, a.status, tpMsg(a.msg))
+		svc.RespondError(rw, r, a.status, tpMsg(a.msg))
 	case "none":
 	}
 }
@@ -430,13 +456,13 @@ func (w *tpWorld) httpTok(rec *httptest.ResponseRecorder, th *tpThread) string {
 	case jr.Discharge != "":
 		kind = w.dischargeTok(jr.Discharge)
 	case jr.PollURL != "":
-		ps, ok := strings.CutPrefix(jr.PollURL, tpLoc+tp.PollPathPrefix)
+		ps, ok := strings.CutPrefix(jr.PollURL, tpLocs[th.act.svc]+tp.PollPathPrefix)
 		kind = "poll:" + w.sref(ps)
 		if !ok || th.retSecret != ps {
 			kind += "!ret"
 		}
 	case jr.UserInteractive != nil:
-		ps, ok1 := strings.CutPrefix(jr.UserInteractive.PollURL, tpLoc+tp.PollPathPrefix)
+		ps, ok1 := strings.CutPrefix(jr.UserInteractive.PollURL, tpLocs[th.act.svc]+tp.PollPathPrefix)
 		us, ok2 := strings.CutPrefix(jr.UserInteractive.UserURL, tpUserPfx)
 		kind = "user:" + w.sref(ps) + "," + w.sref(us)
 		if !ok1 || !ok2 || th.retSecret != us {
@@ -467,6 +493,13 @@ func (w *tpWorld) httpTok(rec *httptest.ResponseRecorder, th *tpThread) string {
 func (w *tpWorld) runAct(th *tpThread) string {
 	ctx := context.WithValue(context.Background(), tpThreadKey{}, th)
 	a := th.act
+	svc, tpLoc := w.svcs[a.svc], tpLocs[a.svc]
+	if a.viaSwap { // the other instance, its Key replaced by this service's key for the duration of the call
+		svc = w.svcs[1-a.svc]
+		old := svc.Key
+		svc.Key = w.svcs[a.svc].Key
+		defer func() { svc.Key = old }()
+	}
 	switch a.kind {
 	case "init":
 		var body []byte
@@ -479,32 +512,32 @@ func (w *tpWorld) runAct(th *tpThread) string {
 		}
 		req := httptest.NewRequest("POST", tpLoc+tp.InitPath, bytes.NewReader(body)).WithContext(ctx)
 		rec := httptest.NewRecorder()
-		w.mux(rec, req)
+		w.mux(a.svc, svc, rec, req)
 		return w.httpTok(rec, th)
 	case "poll":
 		req := httptest.NewRequest("GET", tpLoc+tp.PollPathPrefix+a.secret, nil).WithContext(ctx)
 		rec := httptest.NewRecorder()
-		w.mux(rec, req)
+		w.mux(a.svc, svc, rec, req)
 		return w.httpTok(rec, th)
 	case "uservisit":
 		req := httptest.NewRequest("GET", tpLoc+tpUserPfx+a.secret, nil).WithContext(ctx)
 		rec := httptest.NewRecorder()
-		w.mux(rec, req)
+		w.mux(a.svc, svc, rec, req)
 		return w.httpTok(rec, th)
 	case "approve":
 		var err error
 		if a.role == "poll" {
-			err = w.svc.DischargePoll(ctx, a.secret, tpCavs(a.cs)...)
+			err = svc.DischargePoll(ctx, a.secret, tpCavs(a.cs)...)
 		} else {
-			err = w.svc.DischargeUserInteractive(ctx, a.secret, tpCavs(a.cs)...)
+			err = svc.DischargeUserInteractive(ctx, a.secret, tpCavs(a.cs)...)
 		}
 		return hitmiss(err == nil, "ok", "err")
 	case "abort":
 		var err error
 		if a.role == "poll" {
-			err = w.svc.AbortPoll(ctx, a.secret, tpMsg(a.msg))
+			err = svc.AbortPoll(ctx, a.secret, tpMsg(a.msg))
 		} else {
-			err = w.svc.AbortUserInteractive(ctx, a.secret, tpMsg(a.msg))
+			err = svc.AbortUserInteractive(ctx, a.secret, tpMsg(a.msg))
 		}
 		return hitmiss(err == nil, "ok", "err")
 	}
@@ -533,15 +566,15 @@ func (w *tpWorld) sxAct(a *tpAct) string {
 		case "refuse":
 			m = fmt.Sprintf("(refuse %d %d)", a.status, a.msg)
 		}
-		return fmt.Sprintf("(init %s %s)", t, m)
+		return fmt.Sprintf("(init %d %s %s)", a.svc, t, m)
 	case "poll":
-		return "(poll " + w.sref(a.secret) + ")"
+		return fmt.Sprintf("(poll %d %s)", a.svc, w.sref(a.secret))
 	case "uservisit":
-		return "(uservisit " + w.sref(a.secret) + ")"
+		return fmt.Sprintf("(uservisit %d %s)", a.svc, w.sref(a.secret))
 	case "approve":
-		return fmt.Sprintf("(approve %s %s%s)", a.role, w.sref(a.secret), tpNats(a.cs))
+		return fmt.Sprintf("(approve %d %s %s%s)", a.svc, a.role, w.sref(a.secret), tpNats(a.cs))
 	case "abort":
-		return fmt.Sprintf("(abort %s %s %d)", a.role, w.sref(a.secret), a.msg)
+		return fmt.Sprintf("(abort %d %s %s %d)", a.svc, a.role, w.sref(a.secret), a.msg)
 	}
 	panic("bad action")
 }
@@ -578,9 +611,11 @@ func (w *tpWorld) genSecret(role string) string {
 	randHex := func() string { return hex.EncodeToString(w.r.Bytes(16)) }
 	if len(w.flows) == 0 {
 		w.o.count("secret.never-issued")
+		w.lastSvc = w.r.Intn(2)
 		return randHex()
 	}
 	f := pick(w.r, w.flows)
+	w.lastSvc = f.svc
 	right, other := f.ps, f.us
 	if role == "user" {
 		right, other = f.us, f.ps
@@ -617,18 +652,35 @@ func (w *tpWorld) genAct(maxFlows int) *tpAct {
 	eager := len(w.flows) == 0 // the first flow: mostly a ticket that opens and a mode that stores something
 	if wantInit {
 		w.inits++
-		a := &tpAct{kind: "init"}
+		a := &tpAct{kind: "init", svc: r.Intn(2)}
+		w.o.count(fmt.Sprintf("act.init.svc%d", a.svc))
+		own := func() *tpTok {
+			for {
+				if t := pick(r, w.toks); t.svc == a.svc {
+					return t
+				}
+			}
+		}
 		x := r.Intn(100)
 		if eager {
 			x = x * 2 / 3
 		}
+		opens := false
 		switch {
-		case x < 72:
-			t := pick(r, w.toks)
+		case x < 64:
+			t := own()
 			a.good, a.tid, a.raw = true, t.id, t.ticket
+			opens = true
 			w.o.count("ticket.good")
-		case x < 82:
+		case x < 72: // a valid ticket of the OTHER service: sealed under a key this service does not hold
 			t := pick(r, w.toks)
+			for t.svc == a.svc {
+				t = pick(r, w.toks)
+			}
+			a.good, a.tid, a.raw = true, t.id, t.ticket
+			w.o.count("ticket.other-service")
+		case x < 82:
+			t := own()
 			a.tid, a.raw = 1, append([]byte{}, t.ticket...)
 			a.raw[r.Intn(len(a.raw))] ^= 1 << uint(r.Intn(8))
 			w.o.count("ticket.bitflip")
@@ -666,23 +718,37 @@ func (w *tpWorld) genAct(maxFlows int) *tpAct {
 		default:
 			a.mode = "none"
 		}
-		if a.good && (a.mode == "poll" || a.mode == "user") {
+		if opens && (a.mode == "poll" || a.mode == "user") {
 			w.planned++
 		}
 		w.o.count("act.init." + a.mode)
 		return a
 	}
+	address := func(a *tpAct) *tpAct {
+		a.svc = w.lastSvc
+		if r.Chance(1, 4) { // the flow of one service addressed to the other
+			a.svc = 1 - a.svc
+			w.o.count("addr.other-service." + a.kind)
+		} else {
+			w.o.count("addr.own-service." + a.kind)
+		}
+		if !w.conc && r.Chance(1, 3) { // the same request, realised by replacing the Key of the other tp.TP
+			a.viaSwap = true
+			w.o.count("addr.via-key-swap")
+		}
+		return a
+	}
 	switch x := r.Intn(100); {
 	case x < 38:
 		w.o.count("act.poll")
-		return &tpAct{kind: "poll", secret: w.genSecret("poll")}
+		return address(&tpAct{kind: "poll", secret: w.genSecret("poll")})
 	case x < 50:
 		w.o.count("act.uservisit")
 		a := &tpAct{kind: "uservisit", secret: w.genSecret("user")}
 		for a.secret == "" && w.conc { // "/user/" answers 404 before the store is consulted: no store operation to schedule
 			a.secret = w.genSecret("user")
 		}
-		return a
+		return address(a)
 	case x < 80:
 		role := pick(r, []string{"poll", "user"})
 		w.o.count("act.approve." + role)
@@ -690,7 +756,7 @@ func (w *tpWorld) genAct(maxFlows int) *tpAct {
 		for a.secret == "" { // Discharge*/Abort* treat "" as "the other secret was given"
 			a.secret = w.genSecret(role)
 		}
-		return a
+		return address(a)
 	default:
 		role := pick(r, []string{"poll", "user"})
 		w.o.count("act.abort." + role)
@@ -698,7 +764,7 @@ func (w *tpWorld) genAct(maxFlows int) *tpAct {
 		for a.secret == "" {
 			a.secret = w.genSecret(role)
 		}
-		return a
+		return address(a)
 	}
 }
 
